@@ -1,7 +1,7 @@
 ------------------------------ MODULE Genes_MC ------------------------------
 (* Generator + self-consistency for the lookup half of C08.  stage 1 states are  *)
 (* the gene/query locations (replayed in all combinations by the harness);       *)
-(* stage 2 states are sampled (layout, query) pairs for the meta-properties and  *)
+(* stage 3 states are the spliced gene locations; stage 2 states are sampled (layout, query) pairs for the meta-properties and  *)
 (* the negative control (the bisect-and-early-exit shape misses shadowed genes). *)
 EXTENDS Genes, TLC, Randomization
 CONSTANTS LenSet
@@ -10,14 +10,17 @@ vars == <<stage, R, a, genes, q>>
 
 Rings == [L : LenSet, circ : BOOLEAN]
 Universe(r) == WithStrands(ArcParts(r) \cup CrossParts(r), {1})
+(* genes in several exons: an intron on a line or ring, an exon cut by the origin plus a further exon *)
+Spliced(r) == WithStrands(IntronParts(r) \cup CrossIntronParts(r), {1})
 Dummy == Simple(0, 1, 1)
 Init == stage = 0 /\ R \in Rings /\ a = Dummy /\ genes = <<Dummy>> /\ q = Dummy
 PickLoc == stage = 0 /\ stage' = 1 /\ a' \in Universe(R) /\ UNCHANGED <<R, genes, q>>
+PickSpliced == stage = 0 /\ stage' = 3 /\ a' \in Spliced(R) /\ UNCHANGED <<R, genes, q>>
 PickLayout == /\ stage = 0 /\ stage' = 2 /\ UNCHANGED <<R, a>>
-              /\ \E g1 \in RandomSubset(8, Universe(R)), g2 \in RandomSubset(6, Universe(R)), g3 \in RandomSubset(5, Universe(R)) :
+              /\ \E g1 \in RandomSubset(8, Universe(R)) \cup RandomSubset(4, Spliced(R)), g2 \in RandomSubset(6, Universe(R)), g3 \in RandomSubset(5, Universe(R)) :
                     genes' = <<g1, g2, g3>>
               /\ q' \in RandomSubset(6, Universe(R))
-Next == PickLoc \/ PickLayout
+Next == PickLoc \/ PickSpliced \/ PickLayout
 Spec == Init /\ [][Next]_vars
 
 WithinIsTouching == stage = 2 => Within(genes, q) \subseteq Touching(genes, q)
